@@ -2,3 +2,4 @@
 //! No palette types, no palette constants.
 pub mod cam16;
 pub mod difference;
+pub mod spaces;
